@@ -1,5 +1,6 @@
 import TrackpyV.Proofs.Assign
 import TrackpyV.Proofs.Linker
+import TrackpyV.Proofs.Subnets
 import TrackpyV.Props.C01
 /-!
 # C02 — every frame-to-frame assignment is the global optimum
@@ -428,5 +429,47 @@ theorem step_optimal (cfg : Cfg) (hdrop : cfg.drop = false) (st : State) (t : In
           · rename_i c b hsol
             exact checked_output_optimal _ hne hs _ c b hadm hsol (by simpa using hcost)
           · cases hcost
+
+/-! ## the sub-nets are a partition closed under candidate edges -/
+
+/-- every destination of the new level lies in exactly one sub-net -/
+theorem step_subnets_cover (cfg : Cfg) (st : State) (t : Int) (dsts : List Pos) :
+    ((stepGroups cfg st t dsts).flatMap (·.2)).Perm (List.range dsts.length) :=
+  (stepGroups_inv cfg st t dsts).dests_perm
+
+/-- a source's candidate destinations all lie in the sub-net the source belongs to: no candidate
+pair crosses two sub-nets ("group of mutually competing particles") -/
+theorem step_subnets_closed (cfg : Cfg) (st : State) (t : Int) (dsts : List Pos)
+    (g : Group) (hg : g ∈ stepGroups cfg st t dsts) (i : Nat) (hi : i ∈ g.1)
+    (d : Nat) (hd : d ∈ realDests (srcOf (stepCands cfg st t dsts) i)) : d ∈ g.2 :=
+  (stepGroups_inv cfg st t dsts).closed g hg i hi d hd
+
+/-- the candidate destinations of different sub-nets are disjoint — so the run-time test of this
+fact inside `optWhy` can never fail, and `groups_compose_list` applies to every step -/
+theorem step_subnets_disjoint (cfg : Cfg) (st : State) (t : Int) (dsts : List Pos) :
+    pairwiseDisjointB ((gSrcs (stepCands cfg st t dsts) (stepGroups cfg st t dsts)).map groupDests)
+      = true :=
+  step_groups_disjoint cfg st t dsts
+
+/-- every candidate the monitor considers is within range, and every in-range pair is a candidate
+(so "pairs within search_range" is literally the candidate relation) -/
+theorem candidate_iff_in_range (cfg : Cfg) (t : Int) (dsts : List Pos) (s : Source) (j c : Nat) :
+    (some j, c) ∈ candsOf cfg t dsts s ↔
+      ∃ hj : j < dsts.length, c = dist2 cfg.w (view cfg t s) dsts[j] ∧ c ≤ cfg.B := by
+  constructor
+  · intro h
+    rcases mem_candsOfRow _ _ _ h with h0 | ⟨j', hj', heq, hle⟩
+    · cases h0
+    · simp only [Prod.mk.injEq, Option.some.injEq] at heq
+      obtain ⟨rfl, rfl⟩ := heq
+      have hj : j < dsts.length := by simpa [distRow] using hj'
+      refine ⟨hj, by simp [distRow], hle⟩
+  · rintro ⟨hj, rfl, hle⟩
+    simp only [candsOf, candsOfRow, List.mem_append, List.mem_singleton, mem_foldr_insCand,
+      List.mem_filterMap]
+    left
+    refine ⟨(dist2 cfg.w (view cfg t s) dsts[j], j), ?_, by simp [hle]⟩
+    rw [List.mem_iff_getElem]
+    refine ⟨j, by simp [distRow]; exact hj, by simp [distRow]⟩
 
 end TrackpyV.Linker
